@@ -127,6 +127,32 @@ fn main() {
                     }
                 }
             }
+            // strongly invertible pretzel diagrams whose off-axis crossings form TWO groups on each side of the axis
+            // (every table knot has one): P(3,1,2,1,1) in two listings, P(1,1,2,1,3), P(3,1,4,1,1)
+            let pretzels: Vec<Vec<[usize; 4]>> = vec![
+                vec![[6,13,7,14],[12,5,13,6],[4,11,5,12],[10,7,11,8],[16,10,1,9],[8,2,9,1],[2,15,3,16],[14,3,15,4]],
+                vec![[6,13,7,14],[8,2,9,1],[4,11,5,12],[16,10,1,9],[12,5,13,6],[10,7,11,8],[2,15,3,16],[14,3,15,4]],
+                vec![[6,11,7,12],[10,7,11,8],[16,10,1,9],[8,2,9,1],[2,15,3,16],[12,3,13,4],[4,13,5,14],[14,5,15,6]],
+                vec![[4,15,5,16],[16,5,17,6],[6,17,7,18],[18,3,19,4],[12,20,13,19],[20,12,1,11],[10,2,11,1],[2,10,3,9],[8,13,9,14],[14,7,15,8]],
+            ];
+            for (k, code) in pretzels.iter().enumerate() {
+                if !thorough && k == 3 { continue; }
+                let base = Link::from_pd_code(code.clone());
+                for mir in [false, true] {
+                    if !thorough && mir && k != 0 { continue; }
+                    let l = if mir { base.mirror() } else { base.clone() };
+                    let n = l.crossing_num();
+                    let (p, q) = l.signed_crossing_nums();
+                    let ls = link_str(&l);
+                    let oracle_ok = thorough && n <= 8;
+                    for red in [false, true] {
+                        cases.push(format!("khi {} {} {} {} {} ; {}", red as u8, 0, p, q, oracle_ok as u8, ls));
+                        cases.push(format!("sym {} {} {} {} {} ; {}", red as u8, 1, p, q, oracle_ok as u8, ls));
+                        cases.push(format!("ssi {} ; {}", red as u8, ls));
+                        cases.push(format!("cxh {} ; {}", red as u8, ls));
+                    }
+                }
+            }
             use rayon::prelude::*;
             let results: Vec<String> = cases.par_iter().map(|c| guarded(|| run_case(c)).unwrap_or("TOP-PANIC".into())).collect();
             for (c, res) in cases.iter().zip(results.iter()) { o.case(c, res); }
